@@ -146,7 +146,9 @@ PROPS.update({
              '(dfs = the depth-first listing proved for Task.all_children), one line each with children off - every line with exactly one cell per field. '
              'Level `other`: what the cells say (indentation of the name, link cells with the external mark, __get_field_value), the order of the lines, and the cell texts of the usage table are covered by the bounded stand-in only.',
              ['_Repr.__get_field_value / __get_linked_task_id (cell texts), order and indentation of the lines', 'cell texts of ResourceUsageReport.__repr__ (date format, one decimal, colours)'],
-             ['abstract text theory T3: additive len/vis equations for str concatenation and repetition', 'pre-condition: bg_color is None at every call (true of all call sites in the repository)'], design_ref='8/C20'),
+             ['abstract text theory T3: additive len/vis equations for str concatenation and repetition', 'pre-condition: bg_color is None at every call (true of all call sites in the repository)',
+              'sheet builder: _Repr.__get_field_value is used as a total function returning a text (assumed: no exception out of str() / strftime of an attribute value); the theme has the documented key level_colors; field names are texts',
+              'usage table: every ledger row names a resource (reserve() is only ever called with one); iterating an unmodified set twice yields the same order (CPython guarantee); the table model of contracts/usage.py (rows / cells as list values in fields) and the model of contracts/text.py describe the same objects'], design_ref='8/C20'),
     'C13': P('other', 'contract-based deductive verification of the field-level inverse pairs: the five cell parsers of csv_io.py are proved against their specification, and for every default column the cell '
              'expression of write_csv (taken from the real AST) rendered by the csv writer and read back by the parser specification is proved equivalent to the field (None ~ empty text); the TaskRaw fields built by '
              'tasks_to_raws are proved to be the task values, parent_id = id of the reported parent for all ids (0 and negative included). raws_to_wbs is proved to rebuild the HIERARCHY from the rows: one task per row with the row\'s id, every task below the task of its parent row (a root task of the new WBS '
@@ -164,7 +166,9 @@ PROPS.update({
              'Level `other`: which tasks and ids reach __add_work (__insert_task: summary / inherited dependencies), the float test of calc and the mathematical lemma `Bellman solution = longest path, zero float = on a longest chain` are '
              'outside the contracts; the bounded stand-in compares critical_path() with an exact rational longest-path computation.',
              ['CriticalPathCalculator.__init__ / __insert_task (which leaves and which dependency ids enter the network)', 'CriticalPathCalculator.calc (selection, tolerance)', '_find_clusters'],
-             ['mathematical lemma (not machine-checked here): on a finite DAG the Bellman solution is the longest-path length'], design_ref='8/C12'),
+             ['mathematical lemma (not machine-checked here): on a finite DAG the Bellman solution is the longest-path length',
+              'network constructors: the link lists of a node, the node list and the id -> arc dictionary of the calculator are modelled as list / map VALUES in fields (never aliased: only these functions touch them); a ghost allocation flag stands for object freshness; '
+              'the Bellman units (contracts/critpath.py) read the same lists through an immutable view - that both models describe the same objects is assumed'], design_ref='8/C12'),
     'C10': P('other', 'contract-based deductive verification of Task.clone: symbolically executed from the real source with instance attributes as a per-object map; proved: the copy is a new object, same id / estimate / spent, '
              'exactly the public instance attributes of the source with equal values (loop invariant over the keys of __dict__), no relations, source and all other tasks unchanged. Level `other`: WBS.__clone_tasks / __clone / subtree '
              '(re-wiring hierarchy, sibling order and links, owner, WBS attributes) are covered by the bounded stand-in only.',
@@ -173,11 +177,14 @@ PROPS.update({
     'C19': P('other', 'reduced scope (DESIGN.md section 10). Contract-based deductive verification of the value-level clauses that live in pjplan code: MermaidGantt.__mermaid_task_state returns the milestone flag exactly for '
              'milestones and the done/active token from the dates; the progress computation of DhtmlxGantt.__data (statements taken from the real AST) yields a value within 0..1 for every scheduled task and never raises. '
              'MermaidNetwork.__src is proved at the level of line counts (abstract text theory: number of line breaks): after the heading line the source has, for every member task, one line per predecessor - or one Start line if it has none - and one style line per '
-             'task that carries a bar style (three loops; domain: single-line task names, the property\'s quantifier). '
+             'task that carries a bar style (three loops; domain: single-line task names, the property\'s quantifier). MermaidGantt.__mermaid_task is proved to return exactly one line, and MermaidGantt.__src to add, after the heading, exactly one task line per member task '
+             'plus one section line per section when the tasks carry more than one section - the section dictionary (setdefault / append, then items()) as a key list and a map, shown to hold distinct non-empty sections whose lists contain every task exactly once, each under its own section. '
              'Everything else about the emitted documents - what the lines say, one line / entry per task in the Gantt documents, link numbering, JSON well-formedness, escaping - is decided by the bounded stand-in at the lexical level; what Mermaid, a browser or DHTMLX make of the '
              'text cannot be expressed by a contract on pjplan functions.',
-             ['MermaidGantt.__src / __mermaid_task / __styles', 'MermaidNetwork.__src (content of the lines)', 'DhtmlxGantt.__data (document structure) / __task_classes / __columns / to_html', '_repr_html_'],
-             ['library contracts (L): json.dumps, html.escape, string.Template, strftime'], ['task names containing an arrow add an edge to the network line: known finding A-29'], design_ref='8/C19, 10'),
+             ['MermaidGantt.__src / __mermaid_task (content and order of the lines) / __styles', 'MermaidNetwork.__src (content of the lines)', 'DhtmlxGantt.__data (document structure) / __task_classes / __columns / to_html', '_repr_html_'],
+             ['library contracts (L): json.dumps, html.escape, string.Template, strftime',
+              'MermaidNetwork.__src line count: an f-string has the line breaks of its constant parts plus those of the embedded texts, str.replace of pieces without line breaks keeps their number, numbers render without one; assumed: the rendered style dictionary (__dict_to_style) has no line break; the three frame facts of the section-dictionary total (render.TOTAL_AX, inductions over the number of keys) are assumed and checked on all small instances in selftest/validate_axioms.py'],
+             ['task names containing an arrow add an edge to the network line: known finding A-29'], design_ref='8/C19, 10'),
 })
 for _p in ['C01', 'C02', 'C03', 'C04', 'C05', 'C06', 'C07', 'C08', 'C09', 'C10', 'C11', 'C12', 'C13', 'C14', 'C15', 'C16', 'C18', 'C19', 'C20']:
     PROPS.setdefault(_p, P('other', 'see MANIFEST.json', design_ref='8/' + _p))
